@@ -7,9 +7,9 @@ PROP_FILE = "C16"
 SAME_CASES_ALL_FEATURES = True
 RULE = ("one seed-determined corpus of encode cases (values of every serialisable type / response using only the members that exist without any "
         "feature) and decode cases (requests and nested dictionaries using only feature-independent members), run under every build "
-        "(quick: 4 of the 8 wire-affecting combinations; thorough: all 8) and compared transcript-for-transcript across configurations and with the "
+        "(quick: 6 of the 8 wire-affecting combinations plus std, std+arbitrary and everything+std; thorough: all 8 plus four std / arbitrary builds) and compared transcript-for-transcript across configurations and with the "
         "model. Non-trivial = distinct case with a non-error answer")
-ASSUMPTIONS = ["std and arbitrary do not appear in any cfg on a declaration (kernel-checked on the regenerated declarations); they are additionally built at the all-on corner by C19"]
+ASSUMPTIONS = ["std and arbitrary do not appear in any cfg on a declaration (kernel-checked on the regenerated declarations); they are built alone and on top of all wire features"]
 TECHNIQUE = "Coq proof: (1) kernel obligation that for all 32x32 pairs of feature sets f <= f' the regenerated declarations under f' extend those under f; (2) theorems, by induction over the codec, that under this extension relation every value well-typed in the smaller configuration has the identical encoding in the larger one, and that its encoding decodes in the larger configuration to the same value with the added members absent; cross-build differential run"
 LEVEL_TEXT = ("Kernel-checked on every run: for all pairs of feature sets the declarations regenerated from /repo under the larger set extend those under the smaller one (same keys, wire types, "
               "optionality and order for common members; added members optional and not emitted when unset; capacities only grow), and std/arbitrary change nothing. Theorems "
@@ -20,9 +20,11 @@ LEVEL_TEXT = ("Kernel-checked on every run: for all pairs of feature sets the de
 
 
 def feature_sets(tier):
+    # std and arbitrary must change nothing: they are built alone (std; std+arbitrary, which arbitrary implies) and on top of everything
+    nonwire = [["std"], ["arbitrary", "std"], core.WIRE_FEATURES + ["std"], core.WIRE_FEATURES + ["arbitrary", "std"]]
     if tier == "quick":
-        return [[], ["get-info-full"], ["large-blobs", "third-party-payment"], core.WIRE_FEATURES]
-    return core.all_wire_feature_sets()
+        return [[], ["get-info-full"], ["large-blobs"], ["third-party-payment"], ["large-blobs", "third-party-payment"], core.WIRE_FEATURES] + nonwire[:3]
+    return core.all_wire_feature_sets() + nonwire
 
 
 def cases(tier, rng, schema, feats):
@@ -60,6 +62,14 @@ def cases(tier, rng, schema, feats):
             for _ in range(k):
                 out.append(f"C16.dec.{n}\tdecty\t{t}\t{cbor.enc(g.named_wire(t)).hex()}")
                 n += 1
+    # helper functions can be feature-dependent too (a second implementation under cfg(feature = "std"), say): the text-boundary
+    # corpus of C13 (names and icons around the limits with every class of character at every alignment) uses only
+    # feature-independent members and must come out the same in every build
+    from . import c13 as _c13
+    for line in _c13.cases(tier, rng.fork("c13"), base, []):
+        f = line.split("\t")
+        out.append(f"C16.txt.{n}\t" + "\t".join(f[1:]))
+        n += 1
     return out
 
 
